@@ -348,10 +348,15 @@ def linkRest (keepOld : Bool) (fs : Files) : List Ev :=
 def packUndoing (fs : Files) (h : List Rec) : Files :=
   fs.filter fun e => loadSerialOk h e.1
 
-/-- BlobStorage._packNonUndoing (repair 27e7fbb): the whole oid directory goes when the object can
-    no longer be loaded, else keep a file iff `loadSerial` of its (oid, tid) succeeds -/
+/-- `files[-1]` of the sorted directory listing: no file of the same oid carries a larger tid -/
+def isLatest (fs : Files) (k : Key) : Bool := fs.all fun e => e.1.1 = k.1 → e.1.2 ≤ k.2
+
+/-- BlobStorage._packNonUndoing (used over a base storage without undo, e.g. MappingStorage): the
+    whole oid directory goes when the object can no longer be loaded, else ONLY THE NEWEST file of
+    the object is kept — although the base storage may keep older revisions (the one current at
+    the pack time and everything later): `Props.C13.wrapper_nonundo_pack_removes_kept_blob`. -/
 def packNonUndoing (fs : Files) (h : List Rec) : Files :=
-  fs.filter fun e => loadCurrentOk h e.1.1 ∧ loadSerialOk h e.1
+  fs.filter fun e => loadCurrentOk h e.1.1 ∧ isLatest fs e.1
 
 def removedEvs (before after : Files) : List Ev :=
   (before.filter fun e => (aget after e.1).isNone).map fun e => .remove (.blob e.1)
@@ -406,11 +411,23 @@ def next (s : St) (o : Op) : St := (step s o).1
 
 def run (s : St) (ops : List Op) : St := ops.foldl next s
 
-/-- Histories the theorems quantify over.  The only restriction: the blob wrapper's pack is not run
-    between `tpc_begin` and `tpc_finish`/`tpc_abort` of a transaction (it would delete the blob
-    files that transaction has already moved into place — see `Props.C13.wrapper_pack_in_txn`). -/
+/-- What the non-undo wrapper's pack needs from the base storage's pack to stay exact: of every
+    object that survives, exactly the newest blob revision is kept. -/
+def WrapPackOK (s : St) (T : Nat) (drop : List Key) : Prop :=
+  ∀ r ∈ s.hist, r.kind = .blob →
+    (dropped T drop r = false ↔
+      ((∀ q ∈ s.hist, q.kind = .blob → q.oid = r.oid → q.tid ≤ r.tid) ∧
+       ∃ c ∈ s.hist, c.oid = r.oid ∧ dropped T drop c = false))
+
+/-- Histories the theorems quantify over.  Restrictions, both for the blob WRAPPER only:
+    * its pack is not run between `tpc_begin` and `tpc_finish`/`tpc_abort` of a transaction (it would
+      delete the blob files that transaction has already moved into place — see
+      `Props.C13.wrapper_pack_in_txn_loses_blob`; C13 does not quantify over such interleavings);
+    * `WrapPackOK`: the base storage's pack keeps only the newest blob revision of every surviving
+      object (otherwise `_packNonUndoing` removes files of kept revisions — the open finding
+      `C13:nonundo-pack-removes-kept-blob`, witness `Props.C13.wrapper_nonundo_pack_removes_kept_blob`). -/
 def Admissible (s : St) : Op → Prop
-  | .pack _ _ _ => s.flavor = .wrap → s.txn = none
+  | .pack T drop _ => s.flavor = .wrap → (s.txn = none ∧ WrapPackOK s T drop)
   | _ => True
 
 inductive Reach : St → Prop where
